@@ -843,6 +843,8 @@ inductive GOp
   | funDecl (eval : Bool)       -- function NAME(){}   (in eval code when `eval`)
   | del                         -- delete NAME
   | defn (d : DescArg)          -- Object.defineProperty(this, 'NAME', d)
+  | preventExt                  -- Object.preventExtensions(this)
+  | seal                        -- Object.seal(this)
 deriving DecidableEq, Repr
 
 /-- value code of the function object a declaration binds (opaque) -/
@@ -886,6 +888,8 @@ def gStep (g : MObj) : GOp → MObj × Outcome × List Call
   | .defn d =>
     let r := step [g] (.defn 0 0 d)
     (r.1.headD g, r.2.1, [])
+  | .preventExt => let r := step [g] (.preventExt 0); (r.1.headD g, r.2.1, [])
+  | .seal => let r := step [g] (.seal 0); (r.1.headD g, r.2.1, [])
 
 def gObserve (g : MObj) : NameObs := observeName [g] 0 g 0
 
@@ -989,5 +993,41 @@ def builtinCreates (b : Builtin) : List Call × DescObs :=
   | .gopd => ([], .data 4 true true true)
   | .smatch | .split | .keys => ([], .data 997 true true true)
   | _ => ([], .data 4 true true true)
+
+/-! ### Object.defineProperties / Object.create with a descriptor map whose members have side effects
+    (builtin_object.go builtinObjectDefineProperties / builtinObjectCreate over objectEnumerate, object_class.go:22:
+    the walk runs over a snapshot of propertyOrder but re-checks, for every name, that the property still
+    exists and is enumerable NOW, then reads it) -/
+
+/-- what reading one member of the map does -/
+inductive MAct
+  | plain                 -- a valid descriptor object
+  | del (j : Nat)         -- a getter that deletes the j-th member of the map, then returns a valid descriptor
+  | hide (j : Nat)        -- a getter that makes the j-th member non-enumerable, then returns a valid descriptor
+  | bad                   -- not an object
+  | thr                   -- a getter that throws TypeError
+deriving DecidableEq, Repr
+
+/-- walk state: (deleted?, hidden?) per member position -/
+def mapWalk (ents : List (Name × MAct)) : Nat → List Bool → List Bool → List Name → Nat → Option (List Name)
+  | 0, _, _, acc, _ => some acc
+  | fuel + 1, dels, hids, acc, i =>
+    match ents[i]? with
+    | none => some acc
+    | some (n, act) =>
+      if dels.getD i false || hids.getD i false then mapWalk ents fuel dels hids acc (i + 1)   -- `!exists` / not enumerable: skipped
+      else
+        match act with
+        | .plain => mapWalk ents fuel dels hids (acc ++ [n]) (i + 1)
+        | .del j => mapWalk ents fuel (dels.set j true) hids (acc ++ [n]) (i + 1)
+        | .hide j => mapWalk ents fuel dels (hids.set j true) (acc ++ [n]) (i + 1)
+        | .bad => none
+        | .thr => none
+
+/-- (outcome, own names of the target afterwards); the target is a fresh object, every valid descriptor defines a data property -/
+def defineMap (ents : List (Name × MAct)) : Outcome × List Name :=
+  match mapWalk ents (ents.length + 1) (ents.map fun _ => false) (ents.map fun _ => false) [] 0 with
+  | none => (.typeError, [])
+  | some names => (.ok, names.eraseDups)
 
 end OttoVerif.C07
